@@ -254,6 +254,21 @@ def rule_templates(n):
               ('compose', ((sl(a, 0, q), 0, q), (('int', 0, q), q, h), (('int', 1, h), h, n))),
               ('compose', ((a, 0, n),)),
               ('compose', ((sl(a, 0, h), 0, h), (('cond', b, ('int', 0, h), ('int', 1, h)), h, n)))]
+        # every kind of slot content in every position (2 slots), and a 3-slot mix
+        def slot(kind, i, w, lo):
+            if kind == 's':
+                return sl(a if i == 0 else b, lo, lo + w)
+            if kind == 'k':
+                return ('int', i, w)
+            if kind == 'c':
+                return ('cond', c, ('int', 10 + i, w), ('int', 20 + i, w))
+            return ('id', 'xy'[i % 2] + str(w), w)
+        for k0 in 'skci':
+            for k1 in 'skci':
+                T.append(('compose', ((slot(k0, 0, h, 0), 0, h), (slot(k1, 1, h, h), h, n))))
+        if q in WIDTHS:
+            for ks in ('kck', 'ckk', 'kkc', 'sck', 'ksc', 'cks', 'kik'):
+                T.append(('compose', ((slot(ks[0], 0, q, 0), 0, q), (slot(ks[1], 1, q, q), q, h), (slot(ks[2], 2, h, h), h, n))))
         if n >= 16:
             T += [sl(('mem', ('id', 'p', 32), n), 0, h), sl(('mem', ('id', 'p', 32), n), h, n),
                   sl(('mem', ('id', 'p', 32), n), 0, 8) if n > 8 else sl(a, 0, h),
